@@ -5,6 +5,7 @@ import (
 	"fmt"
 	"os"
 	"strings"
+	"time"
 
 	"verif/sim/core"
 	"verif/sim/props"
@@ -44,6 +45,15 @@ func replayMain(args []string) int {
 		// process-death finding: run it from its seed; if we are still alive
 		// afterwards it did not reproduce.
 		fmt.Printf("replaying run %d of %s/%s from its seed %d (process-death finding)\n", rf.Run, rf.Property, rf.Engine, rf.RunSeed)
+		timeout := e.RunTimeout
+		if timeout == 0 {
+			timeout = 60 * time.Second
+		}
+		go func() { // same watchdog as the worker: a hang brings this process down too
+			time.Sleep(timeout)
+			fmt.Fprintf(os.Stderr, "HANG run=%d engine=%s after %v\n", rf.Run, e.Name, timeout)
+			os.Exit(7)
+		}()
 		src := core.NewRandomSource(rf.RunSeed)
 		out := core.Execute(p.ID, e.Name, e.Run, src, false)
 		fmt.Printf("NOT REPRODUCED: the process survived (digest %016x)\n", out.Digest)
